@@ -214,7 +214,7 @@ func (fr *Frame) step(in ssa.Instruction) {
 	case *ssa.UnOp:
 		fr.regs[x] = fr.unop(x)
 	case *ssa.BinOp:
-		fr.regs[x] = it.binop(x.Op, fr.get(x.X), fr.get(x.Y), x.X.Type(), x.Type(), fr.fn, x.Pos())
+		fr.regs[x] = it.binop(x.Op, it.applyBind(fr.get(x.X)), it.applyBind(fr.get(x.Y)), x.X.Type(), x.Type(), fr.fn, x.Pos())
 	case *ssa.Store:
 		switch p := fr.get(x.Addr).(type) {
 		case Ptr:
@@ -518,4 +518,13 @@ func (it *Interp) concretiseInt(s AbsSlice) (SliceV, bool) {
 		c.Val = termValue(ByteOf(last.Min, n-1-i))
 	}
 	return SliceV{Arr: o.Root, Lo: 0, Len: TInt(int64(n)), Cap: n}, true
+}
+
+
+// applyBind re-expresses a value over the current (narrowed / bound) symbols of the path.
+func (it *Interp) applyBind(v Value) Value {
+	if len(it.bind) == 0 {
+		return v
+	}
+	return it.applyAssume(v)
 }
